@@ -473,11 +473,25 @@ def run_c19(tier, seed, replay):
     g, d = common.tlc_counts(out)
     stats["states"] += g
     stats["distinct"] += d
+    # unbounded: one Shannon level is surjective and injective for arbitrary argument sets (spec/Proofs.tla, TLAPS)
+    import shutil
+    pd = os.path.join(wd, "tlaps")
+    os.makedirs(pd, exist_ok=True)
+    shutil.copy(os.path.join(common.SPEC, "Proofs.tla"), pd)
+    try:
+        pr = subprocess.run(["tlapm", "--threads", "4", "Proofs.tla"], cwd=pd, capture_output=True, text=True, timeout=900)
+    except subprocess.TimeoutExpired:
+        raise ToolError("tlapm timed out on spec/Proofs.tla")
+    mm = re.search(r"All (\d+) obligations? proved", pr.stdout + pr.stderr)
+    if not mm:
+        raise ToolError("tlapm did not prove spec/Proofs.tla:\n" + (pr.stdout + pr.stderr)[-1500:])
+    proved = int(mm.group(1))
     byid = {e["id"]: e for e in events}
     import runner
     samples = [{"input": e["model"], "output": e["stdout"], "exit": e["exit"]} for e in events[:3]]
     return runner.report("C19", tier, seed, t0, items, verdicts, ["c19"], stats,
-                         {"samples": samples, "mode_A": "MC_Converter: Explode reaches every function exactly once for arity 0..%d" % conv_n,
+                         {"samples": samples, "obligations": proved, "discharged": proved, "checker_cmd": "tlapm --threads 4 spec/Proofs.tla",
+                          "proofs": "TLAPS: ShannonStep, ShannonSurjective, ShannonInjective (one level of Converter.Explode reaches every function of (a, x) by exactly one pair of cofactors, arbitrary x-sets)", "mode_A": "MC_Converter: Explode reaches every function exactly once for arity 0..%d" % conv_n,
                           "rule": "seeded aeon networks (<= 3 variables, arity <= 3, implicit and explicit unknown functions nested in expressions and shared between targets, names ending in _0/_1/_) piped through the convert-aeon-to-bnet binary; input and re-loaded output as data; TLC computes for each target the set of truth tables reached over all valuations of the fresh constants and compares it with the set of instantiations of the input function (spec/Converter.tla Related)"},
                          ASSUME_CLI[1:2] + ["the bnet parser of biodivine-lib-param-bn re-loads the output"],
                          lambda it, failed: {"property": "C19", "failed_judgements": failed, "items": [it], "recorded": byid[it["id"]]})
